@@ -120,6 +120,19 @@ func runC07(c *eng.Ctx) {
 		m.Has("R3", eng.CallNamed("mergeFunc"), 1)
 		m.GivenBranch("len(overlapping) == 0", false).AllPaths("R3", eng.CondTest("len(overlapping) == 0"), eng.CallNamed("mergeFunc"), eng.AnyExit)
 	}
+	// ---- R5 iterators re-used across series start clean (PopulateBlock hands the previous series' iterator to the next) ----
+	c.AssignsAllFields("R5", "tsdb:populateWithDelGenericSeriesIterator.reset", "tsdb:populateWithDelGenericSeriesIterator", map[string]string{
+		"bufIter": "kept for memory re-use; its Intervals are truncated by reset and its Iter is replaced in next()"})
+	{
+		rs := c.Fn("tsdb:populateWithDelGenericSeriesIterator.reset")
+		rs.Has("R5", eng.Node("p.bufIter.Intervals = p.bufIter.Intervals[:0]", func(g *eng.Graph, n ast.Node) bool { return nodeText(n) == "p.bufIter.Intervals = p.bufIter.Intervals[:0]" }), 1)
+		for _, t := range []string{"populateWithDelSeriesIterator", "populateWithDelChunkSeriesIterator"} {
+			f := c.Fn("tsdb:" + t + ".reset")
+			f.DomOK("R5", p.Call("tsdb:populateWithDelGenericSeriesIterator.reset"))
+		}
+		f := c.Fn("tsdb:DefaultBlockPopulator.PopulateBlock")
+		f.Only("R5", eng.OnVar("s", "Iterator"), "re-uses the previous iterator (which is why reset must be complete)", func(l eng.Loc) bool { a := eng.CallArgsText(l); return len(a) == 1 && a[0] == "chksIter" })
+	}
 	// ---- R4 the empty-block shortcut is taken only after population finished ----
 	{
 		w := c.Fn("tsdb:LeveledCompactor.write")
